@@ -37,12 +37,28 @@ def drop_xsd_string(t):
 
 def generate(rng, run, tier):
     plan = c03.generate(rng, run, tier)
+    keep_xsd = plan["cfg"]["integration"] == "generic" and rng.random() < 0.1
+    plan["keep_xsd_string"] = keep_xsd
     ops = []
     for o in plan["ops"]:
-        if o[0] == "stmt":
+        if o[0] == "stmt" and not keep_xsd:
             ops.append(["stmt", *T.to_json(tuple(drop_xsd_string(T.from_json(t)) for t in o[1:]))])
         else:
             ops.append(o)
+    if keep_xsd:
+        # the two spellings of one literal in the same slot of consecutive statements
+        for i, o in enumerate(list(ops)):
+            if o[0] == "stmt":
+                for j in range(1, len(o)):
+                    t = o[j]
+                    if t[0] == "lit" and not t[2] and not t[3]:
+                        twin = list(o)
+                        twin[j] = ["lit", t[1], None, T.XSD_STRING]
+                        ops.insert(i + 1, twin)
+                        break
+                else:
+                    continue
+                break
     plan["ops"] = ops
     if rng.random() < 0.3:
         # tables large enough for all distinct strings: each string must be sent exactly once
@@ -99,7 +115,16 @@ def execute(plan, sim):
                          f"{tables[ti]} entry {val!r} at frame {f} row {ri}"})
     if a["missed_elision"]:
         slot, f, ri = a["missed_elision"][0]
-        v.append({"clause": "C19.missed_elision", "sig": {**integ, "slot": slot},
+        # attribution from the workload: are the two adjacent input terms the plain / explicit-xsd:string
+        # spellings of one literal (one RDF term, two Python values)?
+        xsd_pair = False
+        stmt_pos = [pos for item, pos in zip(r.items, r.item_pos) if item[0] != "ns"]
+        if plan.get("keep_xsd_string") and (f, ri) in stmt_pos:
+            i = stmt_pos.index((f, ri))
+            if 0 < i < len(stmts) and slot < len(stmts[i]):
+                t0, t1 = stmts[i - 1][slot], stmts[i][slot]
+                xsd_pair = t0 != t1 and T.norm(t0) == T.norm(t1)
+        v.append({"clause": "C19.missed_elision", "sig": {**integ, "slot": slot, "plain_vs_xsd_string": xsd_pair},
                   "msg": f"{len(a['missed_elision'])} explicit terms equal the previous statement's term in the same "
                          f"slot, first: slot {slot} at frame {f} row {ri}"})
     for key, what in (("explicit_entry_id", "entry id"), ("explicit_prefix_id", "prefix id"),
